@@ -123,19 +123,19 @@ def StageG (inp : RunInput) (σ : Name → RS) (n d : Name) : Prop :=
     ∃ p, CalcG inp σ n p ∧ (σ p).good = true ∧ (d ∈ (inp.calcRes p).tasks ∨ d ∈ (inp.calcRes p).files)
 
 theorem CalcG.mono {inp : RunInput} {σ σ' : Name → RS} {n c : Name}
-    (hm : ∀ p, CalcG inp σ n p → (σ p).good = true → (σ' p).good = true) (h : CalcG inp σ n c) :
-    CalcG inp σ' n c := by
+    (hm : ∀ p, CalcG inp σ n p → CalcG inp σ' n p → (σ p).good = true → (σ' p).good = true)
+    (h : CalcG inp σ n c) : CalcG inp σ' n c := by
   induction h with
   | base h => exact .base h
-  | res hp hg hc ih => exact .res ih (hm _ hp hg) hc
+  | res hp hg hc ih => exact .res ih (hm _ hp ih hg) hc
 
 theorem StageG.mono {inp : RunInput} {σ σ' : Name → RS} {n d : Name}
-    (hm : ∀ p, CalcG inp σ n p → (σ p).good = true → (σ' p).good = true) (h : StageG inp σ n d) :
-    StageG inp σ' n d := by
+    (hm : ∀ p, CalcG inp σ n p → CalcG inp σ' n p → (σ p).good = true → (σ' p).good = true)
+    (h : StageG inp σ n d) : StageG inp σ' n d := by
   rcases h with a | a | ⟨p, a, b, c⟩
   · exact Or.inl a
   · exact Or.inr (Or.inl (a.mono hm))
-  · exact Or.inr (Or.inr ⟨p, a.mono hm, hm p a b, c⟩)
+  · exact Or.inr (Or.inr ⟨p, a.mono hm, hm p a (a.mono hm) b, c⟩)
 
 /-- `select_task`'s first pass would choose `n` for execution: not ignored, status `run`, every first-stage
     dependency executed / up-to-date -/
@@ -163,8 +163,8 @@ variable {inp : RunInput} {σ : Name → RS}
 
 theorem NG.mono {σ' : Name → RS} {n : Name} {nd : Node} (h : NG inp σ n nd)
     (hs : ∀ x, (σ x).finished = true → σ' x = σ x) : NG inp σ' n nd := by
-  have hm : ∀ p, CalcG inp σ n p → (σ p).good = true → (σ' p).good = true := by
-    intro p _ hg; rw [hs p (RS.good_finished hg)]; exact hg
+  have hm : ∀ p, CalcG inp σ n p → CalcG inp σ' n p → (σ p).good = true → (σ' p).good = true := by
+    intro p _ _ hg; rw [hs p (RS.good_finished hg)]; exact hg
   have hf : ∀ p, σ p = .fail → σ' p = .fail := fun p e => by rw [hs p (by rw [e]; rfl)]; exact e
   have hi : ∀ p, σ p = .ign → σ' p = .ign := fun p e => by rw [hs p (by rw [e]; rfl)]; exact e
   refine ⟨fun d hd => (h.pt d hd).mono hm, fun d hd => (h.pcalc d hd).mono hm, fun d hd => (h.st d hd).mono hm,
